@@ -516,7 +516,7 @@ class NetworkGraph(AbstractBaseIR):
                 orders, rates = [], []
                 for m, v in zip(delays, spreads):
                     if v > 0:
-                        n_order = int(np.round((m / v) ** 2))
+                        n_order = max(1, int(np.round((m / v) ** 2)))
                         n_order = n_order if m and n_order > dde_approx else dde_approx
                     else:
                         n_order = dde_approx if m else 0
